@@ -92,6 +92,11 @@ def cp_apr(  # noqa: PLR0913
 
     assert rank > 0, "Number of components requested must be positive"
 
+    if isinstance(input_tensor, ttb.sptensor) and input_tensor.nnz == 0:
+        # No counts at all: the coordinate list has no mode columns to index, the
+        # dense all-zero tensor is the same data
+        input_tensor = input_tensor.to_tensor()
+
     # Check that the data is non-negative.
     tmp = input_tensor < 0.0
     assert (
